@@ -1,5 +1,71 @@
-(* placeholder while the model is being tied; replaced by the real theorems *)
+(* Props/C03.v -- Every HTTP flow has an ordered hook lifecycle and exactly one outcome.
+   Objects: Model/HttpStream.v (HttpStream as a state machine with explicit await states) and Model/HttpSys.v
+   (Http1Server / Http1Client / HttpLayer routing / driver).  sreach o s: s is reached from a new stream by any
+   sequence of HTTP events, completions and addon actions (all sizes, all orders).  hooks s is the list of hooks
+   the stream fired, oldest first; rule h pre says whether h may fire after the hooks pre:
+     requestheaders / http_connect only first; request after requestheaders and once; responseheaders after
+     requestheaders and once; response after requestheaders and responseheaders and once; error after requestheaders.
+   venv s = false: every handled event is one the connection layers deliver (first event is the request headers;
+   response-side events only after the request went upstream; nothing from the client after its protocol error;
+   no empty data events).  The system model checks this flag on every correspondence case.
+   vgap s = false: no response-side event was handled after the flow had been aborted towards the server.  That
+   situation is the finding both-outcomes-queued-response: C03_not_both_refuted shows a run inside the environment
+   in which both hooks fire, C03_not_both_partial is the statement under the exact complement. *)
 From Coq Require Import List Bool NArith.
-From MV Require Import Base.Bytes Model.HttpStream Model.HttpSys.
-Theorem C03_placeholder : True. Proof. exact I. Qed.
-Print Assumptions C03_placeholder.
+From MV Require Import Base.Bytes Model.HttpStream Model.HttpSys Proofs.HttpStreamAbs Proofs.HttpStreamSound
+  Proofs.HttpStreamInv Proofs.HttpStreamHooks Proofs.HookSeq Proofs.HttpStreamMain.
+Import ListNotations.
+
+(* requestheaders first; request / responseheaders / response at most once and in order *)
+Theorem C03_hook_order : forall o s, sreach o s -> venv s = false ->
+  forall pre h post, hooks s = pre ++ h :: post -> rule h pre = true.
+Proof. exact T_order. Qed.
+Print Assumptions C03_hook_order.
+
+(* not streamed => request precedes responseheaders *)
+Theorem C03_request_before_responseheaders : forall o s, sreach o s -> venv s = false -> req_stream s = false ->
+  forall pre post, hooks s = pre ++ HkRespHeaders :: post -> mem HkRequest pre = true.
+Proof. exact T_request_first. Qed.
+Print Assumptions C03_request_before_responseheaders.
+
+(* never both response and error: false of the code ... *)
+Theorem C03_not_both_refuted :
+  let s := run_stream gap_opts gap_run in
+  venv s = false /\ mem HkResponse (hooks s) && mem HkError (hooks s) = true /\ vgap s = true.
+Proof. exact T_both_refuted. Qed.
+Print Assumptions C03_not_both_refuted.
+
+(* ... and true whenever no response-side event is handled after the abort (error also fires at most once) *)
+Theorem C03_not_both_partial : forall o s, sreach o s -> venv s = false -> vgap s = false ->
+  mem HkResponse (hooks s) && mem HkError (hooks s) = false
+  /\ (forall pre post, hooks s = pre ++ HkError :: post -> mem HkError pre = false).
+Proof. exact T_not_both. Qed.
+Print Assumptions C03_not_both_partial.
+
+(* exactly one outcome and not live, for an idle stream that fired requestheaders and whose two sides are finished:
+   the client side delivered its end of message / protocol error (or the stream is errored), and if the request
+   went upstream the server side delivered its end / error (or the flow was aborted towards the server) *)
+Theorem C03_one_outcome : forall o s, sreach o s ->
+  pc s = None -> tunnel s = false -> crashed s = false -> venv s = false -> vgap s = false ->
+  mem HkReqHeaders (hooks s) = true -> closed_s s = true ->
+  xorb (mem HkResponse (hooks s)) (mem HkError (hooks s)) = true /\ live s = false.
+Proof. exact T_outcome. Qed.
+Print Assumptions C03_one_outcome.
+
+(* the streams of the system model (any options, policy, connect outcomes, schedule) are such streams *)
+Theorem C03_system_streams : forall e ops, Forall (fun p => sreach (e_opts e) (fst p)) (streams (run_ops e ops)).
+Proof. exact run_ops_reach. Qed.
+Print Assumptions C03_system_streams.
+
+(* hypotheses are satisfiable: a plain GET exchange ends idle, closed, with exactly the response outcome *)
+Definition nv_req : head := mkHead [] MGet HNone 0 true true false false 0.
+Definition nv_resp : head := mkHead [] MGet (HLen 2) 0 true true false false 200.
+Definition nv_run : list sstep :=
+  [SIn (IEvent (EReqHeaders nv_req true)); SIn IHookDone; SIn (IEvent EReqEOM); SIn IHookDone; SIn (IConnDone (Some 1%N));
+   SIn (IEvent (ERespHeaders nv_resp false)); SIn IHookDone; SIn (IEvent (ERespData [x6f; x6b])); SIn (IEvent ERespEOM); SIn IHookDone].
+Theorem C03_nonvacuous :
+  let s := run_stream gap_opts nv_run in
+  sreach gap_opts s /\ pc s = None /\ tunnel s = false /\ crashed s = false /\ venv s = false /\ vgap s = false
+  /\ closed_s s = true /\ hooks s = [HkReqHeaders; HkRequest; HkRespHeaders; HkResponse] /\ live s = false.
+Proof. split; [apply run_stream_reach | vm_compute; repeat split]. Qed.
+Print Assumptions C03_nonvacuous.
